@@ -40,7 +40,10 @@ Elem(t) == t.of[1]
 \* the string universe of the bounded model and which of its members parse as numbers
 IntStrings   == {"12", "-3", "7"}
 FloatStrings == IntStrings \cup {"1.5", "1e3"}
-EnumValues   == {"RED", "GREEN"}
+\* the values of enum E in the schema at hand; the switch SCHEMA2 (carried in Devs with the
+\* deviations, it is a configuration, not a deviation) selects a second schema with the same
+\* type names in which E has one value only
+EnumValues   == IF "SCHEMA2" \in Devs THEN {"RED"} ELSE {"RED", "GREEN"}
 IntOf(s) == CASE s = "12" -> 12 [] s = "-3" -> 0 - 3 [] s = "7" -> 7 [] OTHER -> 0
 Lower(s) == CASE s = "RED" -> "red" [] s = "GREEN" -> "green" [] OTHER -> s
 
